@@ -743,7 +743,8 @@ def run(ctx):
             common.report(ctx, '%s/%s/%s/%s' % (prop.lower(), c['transport'], 'bytes' if c['encoding'] is None else 'unicode', msg.split(' ')[0]),
                           '%s, %s: %s' % (c['transport'], c['encoding'], msg),
                           dict(transport=c['transport'], encoding=c['encoding'], errors=c.get('errors'), logs=list(c.get('logs', ())),
-                               ops=[[op[0]] + [repr(x) for x in op[1:]] for op in c['ops']], how='harness/props/session_family.py run_case(case)'))
+                               ops=[[op[0]] + [repr(x) for x in op[1:]] for op in c['ops']], case_json=_enc(c),
+                               how='harness/props/session_family.py run_case(case); ./check %s --replay <this file> runs it again' % prop))
             continue
         if i in mouts and not res['problems']:
             real = real_canon(c, res)
@@ -778,6 +779,37 @@ def run(ctx):
                      'a blocking write on a pty / pipe / socket accepts the whole buffer when the peer is reading'])
 
 
+def _enc(v):
+    if isinstance(v, bytes):
+        return {'__b': v.hex()}
+    if isinstance(v, (list, tuple)):
+        return [_enc(x) for x in v]
+    if isinstance(v, dict):
+        return {k: _enc(x) for k, x in v.items()}
+    return v
+
+
+def _dec(v):
+    if isinstance(v, dict) and set(v) == {'__b'}:
+        return bytes.fromhex(v['__b'])
+    if isinstance(v, list):
+        return [_dec(x) for x in v]
+    if isinstance(v, dict):
+        return {k: _dec(x) for k, x in v.items()}
+    return v
+
+
 def replay(ctx, path):
+    d = json.load(open(path))
+    r = d.get('replay') or {}
+    if 'case_json' in r:
+        c = _dec(r['case_json'])
+        c['ops'] = [tuple(op) for op in c['ops']]
+        if 'logs' in c:
+            c['logs'] = tuple(c['logs'])
+        res = run_case(c)
+        msg = ORACLES[ctx.prop](c, res)
+        print('%s, %s: %s' % (c['transport'], c['encoding'], msg or 'holds on this input'))
+        return 1 if msg else 0
     print(open(path).read()[:3000])
     return 1
